@@ -119,11 +119,25 @@ def r1(ctx: Ctx):
     ctx.fail(rule, ch, 'ChainedRunner.iterate: r.iterate(..., ignore_error=ignore_error)',
              'a chained stage runs without the requested error skipping', node=ch.node)
   si = repo.func(IO, 'SequenceIterator.__init__')
-  t = unparse(si.node)
-  if 'iter_utils.iter_ignore_error if config.ignore_error else iter' in t:
+  from mlmverif.core import parent_map
+  pm = parent_map(si.node)
+  refs = [x for x in ast.walk(si.node) if isinstance(x, ast.Attribute) and x.attr == 'iter_ignore_error'
+          or isinstance(x, ast.Name) and x.id == 'iter_ignore_error']
+  def _flag_guarded(x):
+    q = x
+    while q is not si.node and q is not None:
+      par = pm.get(q)
+      if isinstance(par, (ast.If, ast.IfExp)):
+        t_ = par.test
+        if isinstance(t_, ast.Attribute) and t_.attr == 'ignore_error':
+          in_true = (q is par.body) if isinstance(par, ast.IfExp) else any(q is b_ for b_ in par.body)
+          return in_true
+      q = par
+    return False
+  if refs and all(_flag_guarded(x) for x in refs):
     ctx.ok(rule, si, 'data source wraps with iter_ignore_error iff ignore_error', si.node)
   else:
-    ctx.fail(rule, si, 'SequenceIterator: iter_ignore_error if config.ignore_error else iter',
+    ctx.fail(rule, si, 'SequenceIterator: iter_ignore_error applied exactly under config.ignore_error',
              'the data source ignores (or always applies) its ignore_error flag',
              node=si.node)
   ctx.floor(rule, 6, n + 3)
